@@ -574,7 +574,7 @@ func resForced(r *vk.Run) {
 	type sc struct {
 		Sub      subOpts `json:"sub"`
 		Window   string  `json:"window"`
-		Who      string  `json:"who"` // which goroutine is parked: writer | subscriber | stopper
+		Who      string  `json:"who"`   // which goroutine is parked: writer | subscriber | stopper
 		Other    bool    `json:"other"` // a second, healthy subscriber is present (must not be stalled)
 		Consumer string  `json:"consumer"`
 	}
